@@ -540,6 +540,11 @@ func (t *tokenizer) readQuotedSymbol() (string, error) {
 			return "", err
 		}
 
+		if isProhibitedControlChar(c) {
+			// As in a string, raw control characters have to be escaped.
+			return "", t.invalidChar(c)
+		}
+
 		switch c {
 		case -1, '\n':
 			return "", t.invalidChar(c)
